@@ -131,7 +131,9 @@ impl Codec {
                 use liblzma::read::XzEncoder;
                 use std::io::Read;
 
-                let mut encoder = XzEncoder::new(&stream[..], settings.compression_level as u32);
+                // xz only defines the presets 0..=9 and panics on anything else
+                let mut encoder =
+                    XzEncoder::new(&stream[..], (settings.compression_level as u32).min(9));
                 let mut buffer = Vec::new();
                 encoder
                     .read_to_end(&mut buffer)
@@ -270,7 +272,8 @@ pub mod bzip {
         }
 
         pub(crate) fn compression(&self) -> Compression {
-            Compression::new(self.compression_level as u32)
+            // bzip2 only defines the levels 1..=9 and panics on anything else
+            Compression::new((self.compression_level as u32).clamp(1, 9))
         }
     }
 
